@@ -13,15 +13,25 @@ structure St where
 def valBytes (pre : Char) (v : Int) : List UInt8 :=
   if v = 0 then [] else (String.mk [pre] ++ pad4 v.toNat).toUTF8.toList
 
-def hashCol (k : String) (v : Int) (seed : UInt32) : UInt32 :=
+/-- the harness spreads the small naturals over all bytes of the wider integer types (kinds.go `kindScale`) -/
+def kindScale (k : String) : Int :=
+  match k with
+  | "i16" => 257
+  | "u16" => 701
+  | "i32" | "u32" => 16843009
+  | "i64" | "u64" | "int" | "uint" | "uptr" => 72340172838076673
+  | _ => 1
+
+def hashCol (k : String) (v0 : Int) (seed : UInt32) : UInt32 :=
+  let v := v0 * kindScale k
   match k with
   | "i64" | "int" | "u64" | "uint" | "uptr" => hash64 (intToU64 v) seed
   | "i32" | "i16" | "i8" | "u8" | "u16" | "u32" => hash32 (intToU32 v) seed
-  | "str" => murmur3 (valBytes 'k' v) seed
-  | "bytes" => murmur3 (valBytes 'b' v) seed
-  | "f64" => hash64 (f64bitsOfNat v.toNat) seed
-  | "f32" => hash32 (f32bitsOfNat v.toNat) seed
-  | "bool" => if v ≠ 0 then seed + 1 else seed
+  | "str" => murmur3 (valBytes 'k' v0) seed
+  | "bytes" => murmur3 (valBytes 'b' v0) seed
+  | "f64" => hash64 (f64bitsOfNat v0.toNat) seed
+  | "f32" => hash32 (f32bitsOfNat v0.toNat) seed
+  | "bool" => if v0 ≠ 0 then seed + 1 else seed
   | _ => 0
 
 def hashRow (kinds : List String) (pfx : Nat) (r : Row) (seed : UInt32) : UInt32 :=
